@@ -3,8 +3,8 @@ import json, os, random, shutil
 from common import *
 import probe, rtprobe, oracles, p_gen
 
-FOCUS = {"C04": ("access",), "C13": ("access",), "C06": ("get", "set"), "C08": ("new", "new_as", "access"),
-         "C19": ("access", "get", "set", "new"), "C20": ("access", "get", "set", "new")}
+FOCUS = {"C04": ("access",), "C13": ("access",), "C06": ("get", "set", "bytes", "bitops"), "C08": ("new", "new_as", "access"),
+         "C19": ("access", "get", "set", "new", "bytes", "bitops"), "C20": ("access", "get", "set", "new", "bytes", "bitops")}
 
 
 def has_cfg(c):
